@@ -58,8 +58,8 @@ imp!(H256, 256);
 
 /// Drives the real minicbor encoder from a refcbor node, one encoder call per
 /// head / payload, so the Hasher's `Write` impl sees the item in many pieces.
-struct N<'a>(&'a Node);
-impl<C> Encode<C> for N<'_> {
+struct Enc<'a>(&'a Node);
+impl<C> Encode<C> for Enc<'_> {
     fn encode<W: encode::Write>(&self, e: &mut Encoder<W>, ctx: &mut C) -> Result<(), encode::Error<W::Error>> {
         match &self.0.kind {
             Kind::UInt(v, _) => {
@@ -91,34 +91,34 @@ impl<C> Encode<C> for N<'_> {
             Kind::Array(v, Some(_)) => {
                 e.array(v.len() as u64)?;
                 for x in v {
-                    N(x).encode(e, ctx)?;
+                    Enc(x).encode(e, ctx)?;
                 }
             }
             Kind::Array(v, None) => {
                 e.begin_array()?;
                 for x in v {
-                    N(x).encode(e, ctx)?;
+                    Enc(x).encode(e, ctx)?;
                 }
                 e.end()?;
             }
             Kind::Map(v, Some(_)) => {
                 e.map(v.len() as u64)?;
                 for (k, x) in v {
-                    N(k).encode(e, ctx)?;
-                    N(x).encode(e, ctx)?;
+                    Enc(k).encode(e, ctx)?;
+                    Enc(x).encode(e, ctx)?;
                 }
             }
             Kind::Map(v, None) => {
                 e.begin_map()?;
                 for (k, x) in v {
-                    N(k).encode(e, ctx)?;
-                    N(x).encode(e, ctx)?;
+                    Enc(k).encode(e, ctx)?;
+                    Enc(x).encode(e, ctx)?;
                 }
                 e.end()?;
             }
             Kind::Tag(t, _, inner) => {
                 e.tag(Tag::new(*t))?;
-                N(inner).encode(e, ctx)?;
+                Enc(inner).encode(e, ctx)?;
             }
             Kind::Simple(20, _) => {
                 e.bool(false)?;
@@ -350,14 +350,14 @@ fn section_cbor<T: H>(st: &St, items: &[Node]) {
         let bytes = node.to_vec();
         // harness self-check: the wrapper must make minicbor emit exactly the
         // refcbor bytes, otherwise the expected digest would be about other bytes
-        match catch(|| minicbor::to_vec(N(node))) {
+        match catch(|| minicbor::to_vec(Enc(node))) {
             Ok(Ok(b)) if b == bytes => {}
             other => mc_core::report::machinery_failure(&format!("C10: encoder wrapper and refcbor disagree on {}: {:?}", hex::encode(&bytes), other.map(|r| r.map(|b| hex::encode(b)).map_err(|e| e.to_string())).map_err(|p| p.message))),
         }
         let mut keys = vec![];
         st.tick(1);
         let want = refb2b(T::BITS / 8, &bytes);
-        match catch(|| T::cbor(&N(node))) {
+        match catch(|| T::cbor(&Enc(node))) {
             Ok(g) if g == want => keys.push(format!("cbor:{}:{}", T::BITS, hex::encode(&want))),
             Ok(g) => st.ctx.violation(
                 "Hasher::hash_cbor:digest",
@@ -373,7 +373,7 @@ fn section_cbor<T: H>(st: &St, items: &[Node]) {
             cat.extend_from_slice(&bytes);
             let want = refb2b(T::BITS / 8, &cat);
             st.tick(1);
-            match catch(|| T::tagged_cbor(&N(node), tag)) {
+            match catch(|| T::tagged_cbor(&Enc(node), tag)) {
                 Ok(g) if g == want => keys.push(format!("tcbor:{}:{}", T::BITS, hex::encode(&want))),
                 Ok(g) => st.ctx.violation(
                     "Hasher::hash_tagged_cbor:digest",
@@ -651,7 +651,7 @@ pub fn run(ctx: Ctx) -> ! {
         "distinct_nontrivial" => distinct.len(),
         "rule" => "evaluation = one call into pallas compared with the independent reference: (a) Hasher<160|224|256> fed every 2-way split (and every 3-way split up to the stated length, and byte-at-a-time) of a fixed pseudo-random message of every length 0..=272 and 383..385, 511..513, 1024, 4096 vs own RFC 7693 Blake2b; (b) hash_tagged for all 256 tags x 6 payloads; (c) hash_cbor / hash_tagged_cbor on every minimal-form CBOR item of a depth-3 grammar driven through the real minicbor encoder (all 256 tags on every 16th item, 4 tags otherwise) and on native values, vs Blake2b(tag || refcbor bytes); (d) Hash<20|28|32> hex / CBOR / serde round trips and every length 0..=40 (+ odd digit counts) through from_str / CBOR decode / deserialize; (e) epoch nonce over 6x6 hashes x 7 extra-entropy options, rolling nonce over 6 x 9 VRF outputs (32/64 bytes) and a 64-step chain. distinct_nontrivial = distinct (section, parameters) cases whose comparison succeeded and that are not degenerate (splits with an empty chunk are not counted)",
         "samples" => samples,
-        "exhaustive" => true,
+        "complete_subspaces" => ["all 2-way splits of each listed length", "all 3-way splits up to the stated length", "all 256 tag bytes", "all lengths 0..=40 against Hash<20|28|32>"],
         "evaluations_incremental_hashing" => after_splits,
         "evaluations_tagged_and_cbor" => after_cbor - after_splits,
         "evaluations_hash_values" => after_values - after_cbor,
